@@ -66,6 +66,9 @@ kseed = UFun("kseed", [z3.IntSort()], KeyS)
 kwrap = UFun("kwrap", [z3.IntSort(), z3.IntSort()], KeyS)          # key built from raw (symbolic) key data
 
 
+krbg = UFun("krbg", [z3.IntSort()] * 4, KeyS)                     # key of the "rbg" / "unsafe_rbg" implementations built from four raw words
+
+
 def kdata(i):
     """i-th 32-bit word of a key's raw data (uninterpreted; jointly injective, see concrete.key_injectivity)"""
     return UFun(f"kdata{i}", [KeyS], z3.IntSort())
@@ -831,10 +834,16 @@ class Interp:
         return emap(lambda v: kseed(self.o.z(v)), s)
 
     def p_random_wrap(self, e, x):
-        # raw key data -> key; only concrete data supported
+        # raw key data -> key
         out = np.empty(x.shape[:-1], dtype=object)
+        impl = str(getattr(e.params.get("impl"), "name", e.params.get("impl")))
         for i in np.ndindex(*out.shape):
             d = x[i]
+            if "rbg" in impl:
+                if len(d) != 4:
+                    raise Unsupported(f"random_wrap[{impl}] of {len(d)} words")
+                out[i] = krbg(*[self.o.z(v) for v in d])      # a key of another implementation: a different key, whatever its words
+                continue
             if not all(isconc(v) for v in d):
                 if len(d) != 2:
                     raise Unsupported("random_wrap of symbolic data of a non-default key implementation")
@@ -851,8 +860,9 @@ class Interp:
         for i in np.ndindex(*k.shape):
             t = k[i]
             conc = z3.is_app(t) and t.decl().name() == "kseed" and z3.is_int_value(t.arg(0)) and nw == 2
+            rbg = z3.is_app(t) and t.decl().name() == "krbg" and nw == 4
             for w in range(nw):
-                out[i + (w,)] = ((t.arg(0).as_long() >> 32, t.arg(0).as_long() & 0xFFFFFFFF)[w]) if conc else kdata(w)(t)
+                out[i + (w,)] = t.arg(w) if rbg else (((t.arg(0).as_long() >> 32, t.arg(0).as_long() & 0xFFFFFFFF)[w]) if conc else kdata(w)(t))
         return out
 
     def p_random_bits(self, e, k):
